@@ -870,6 +870,26 @@ func propC16(run *Run, n int) {
 			}
 			addC16CliCase(run, d, rc.Chance(1, 2), rc.Chance(1, 2), rc.Chance(1, 3))
 		}
+		// YAML diff then YAML patch through the binaries: root sequences (element replaced / appended / removed), a root
+		// scalar replaced, an object edited
+		pairs := [][2]*Val{
+			{VArr(VStr("alpha"), VStr("123"), VStr("beta")), VArr(VStr("alpha"), VStr("yes"), VStr("beta"))},
+			{VArr(VStr("a")), VArr(VStr("a"), VStr("no"))},
+			{VArr(VNum(1), VNum(2), VNum(3)), VArr(VNum(1), VNum(3))},
+			{VStr("null"), VStr("~")},
+			{VObj("k", VStr("1.0"), "l", VArr(VStr("x"))), VObj("k", VStr("1.00"), "l", VArr(VStr("x"), VStr("y")))},
+		}
+		for i := 0; i < 4; i++ {
+			cfg := c16Cfg(rc)
+			a, b := cfg.Pair(rc)
+			if a.K == KVoid || b.K == KVoid || hasMergeKey(a) || hasMergeKey(b) || hasNegZeroVal(a) || hasNegZeroVal(b) || c16HasVoid(a) || c16HasVoid(b) {
+				continue
+			}
+			pairs = append(pairs, [2]*Val{a, b})
+		}
+		for i, pr := range pairs {
+			addC16CliPatchCase(run, pr[0], pr[1], i%2 == 0)
+		}
 	}
 	addC16DocCase(run, VVoid(), "void")
 	for _, s := range c16Strs {
